@@ -415,7 +415,16 @@ def monitorOp (mu : Mon) (prev : Args) (toks : List String) (implOk : Bool) (out
         [mk "C13" "C13/cap-changed" s!"cap={capStr} cap0={optNatStr (mu.cap0.getD none)}"] else []) ++
       (if minterStr != prev.str "minter" && !(kind == "update_minter" && prev.str "minter" == snd && implOk) then
         [mk "C13" "C13/minter-changed" s!"minter {prev.str "minter"}->{minterStr} by {kind} from {snd}"] else []) ++
-      (if mu.renounced && minterStr != "-" then [mk "C13" "C13/minter-after-renounce" s!"minter={minterStr}"] else [])
+      (if mu.renounced && minterStr != "-" then [mk "C13" "C13/minter-after-renounce" s!"minter={minterStr}"] else []) ++
+      -- a successful UpdateMinter has exactly its effect: the named address holds the role, or — when none is
+      -- named — nobody does ("renounce"; theorems C13.update_minter_ok_iff, renounce_then_all_fail)
+      (if kind == "update_minter" && implOk then
+        let want := match a.optStr "new" with
+          | some t => (parseAddr t).2
+          | none => "-"
+        if minterStr == want then [] else
+          [mk "C13" "C13/update-minter-effect" s!"requested={want} registered={minterStr}"]
+       else [])
     let mu := if minterStr == "-" then { mu with renounced := true } else mu
     -- ---------- C19: the three views agree
     let vOwner := obsAllow cur "allow"; let vSp := obsAllow cur "allowsp"; let vPt := obsAllow cur "pallow"
